@@ -610,6 +610,29 @@ def lexOKc : Com → Bool
   | .cond b c1 c2 => lexOK b && lexOKc c1 && lexOKc c2
   | .while b inv c => lexOK b && lexOK inv && lexOKc c
 
+/-- a command that is neither a sequence nor a conditional -/
+def atomicCom : Com → Bool
+  | .skip | .assign _ _ | .while _ _ _ => true
+  | _ => false
+
+/-- the shape of the programs parser2 can return: the first part of a sequence is neither a sequence
+(`;` nests to the right) nor a conditional (an else-branch extends as far as possible) -/
+def shapeOK : Com → Bool
+  | .seq c1 c2 => atomicCom c1 && shapeOK c1 && shapeOK c2
+  | .cond _ c1 c2 => shapeOK c1 && shapeOK c2
+  | .while _ _ c => shapeOK c
+  | _ => true
+
+/-- programs that `print_com` can express: of that shape, over the assertion language and identifiers -/
+def printableCom (c : Com) : Bool := shapeOK c && okCom c && lexOKc c
+
+def normNegCom : Com → Com
+  | .skip => .skip
+  | .assign x e => .assign x (normNeg e)
+  | .seq c1 c2 => .seq (normNegCom c1) (normNegCom c2)
+  | .cond b c1 c2 => .cond (normNeg b) (normNegCom c1) (normNegCom c2)
+  | .while b inv c => .while (normNeg b) (normNeg inv) (normNegCom c)
+
 /-! ## Parser
 
 Recursive descent that accepts exactly what Lark's LALR(1) parser accepts for parser2's grammar
@@ -754,41 +777,59 @@ abbrev CRes := Option (Com × List Tok)
 
 /-- cmd: "skip" | CNAME ":=" expr | "if" "(" cond ")" "then" cmd "else" cmd
        | "while" "(" cond ")" "{" ("[" cond "]")? cmd "}" | cmd ";" cmd   (right-nested) -/
+def assignRes (x : String) (res : PRes) : CRes :=
+  match res with
+  | some (e, r') => if isArithE e then some (.assign x e, r') else none
+  | none => none
+
+def condRes (rec : List Tok → CRes) (res : PRes) : CRes :=
+  match res with
+  | some (b, .rp :: .kthen :: r1) =>
+    if isCondE b then match rec r1 with
+      | some (c1, .kelse :: r2) => match rec r2 with
+        | some (c2, r3) => some (.cond b c1 c2, r3)
+        | none => none
+      | _ => none
+    else none
+  | _ => none
+
+def whileRes (rec : List Tok → CRes) (res : PRes) : CRes :=
+  match res with
+  | some (b, .rp :: .lbrace :: .lbrack :: r1) =>
+    if isCondE b then match pImp (parseFuel r1) r1 with
+      | some (inv, .rbrack :: r2) =>
+        if isCondE inv then match rec r2 with
+          | some (c, .rbrace :: r3) => some (.while b inv c, r3)
+          | _ => none
+        else none
+      | _ => none
+    else none
+  | some (b, .rp :: .lbrace :: r1) =>
+    if isCondE b then match rec r1 with
+      | some (c, .rbrace :: r3) => some (.while b etrue c, r3)
+      | _ => none
+    else none
+  | _ => none
+
+/-- one command that is not a sequence -/
+def pFirst (rec : List Tok → CRes) : List Tok → CRes
+  | .kskip :: r => some (.skip, r)
+  | .id x :: .assign :: r => assignRes x (pArith (parseFuel r) r)
+  | .kif :: .lp :: r => condRes rec (pImp (parseFuel r) r)
+  | .kwhile :: .lp :: r => whileRes rec (pImp (parseFuel r) r)
+  | _ => none
+
+/-- `cmd ";" cmd`, shift preferred: everything after the `;` belongs to the second part -/
+def seqCont (rec : List Tok → CRes) (first : CRes) : CRes :=
+  match first with
+  | some (c1, .semi :: r) => match rec r with
+    | some (c2, r') => some (.seq c1 c2, r')
+    | none => none
+  | res => res
+
 def pCmd : Nat → List Tok → CRes
   | 0, _ => none
-  | n + 1, ts =>
-    let first : CRes := match ts with
-      | .kskip :: r => some (.skip, r)
-      | .id x :: .assign :: r => match pArith (parseFuel r) r with
-        | some (e, r') => if isArithE e then some (.assign x e, r') else none
-        | none => none
-      | .kif :: .lp :: r => match pImp (parseFuel r) r with
-        | some (b, .rp :: .kthen :: r1) => if isCondE b then match pCmd n r1 with
-            | some (c1, .kelse :: r2) => match pCmd n r2 with
-              | some (c2, r3) => some (.cond b c1 c2, r3)
-              | none => none
-            | _ => none
-          else none
-        | _ => none
-      | .kwhile :: .lp :: r => match pImp (parseFuel r) r with
-        | some (b, .rp :: .lbrace :: .lbrack :: r1) => if isCondE b then match pImp (parseFuel r1) r1 with
-            | some (inv, .rbrack :: r2) => if isCondE inv then match pCmd n r2 with
-                | some (c, .rbrace :: r3) => some (.while b inv c, r3)
-                | _ => none
-              else none
-            | _ => none
-          else none
-        | some (b, .rp :: .lbrace :: r1) => if isCondE b then match pCmd n r1 with
-            | some (c, .rbrace :: r3) => some (.while b etrue c, r3)
-            | _ => none
-          else none
-        | _ => none
-      | _ => none
-    match first with
-    | some (c1, .semi :: r) => match pCmd n r with
-      | some (c2, r') => some (.seq c1 c2, r')
-      | none => none
-    | res => res
+  | n + 1, ts => seqCont (pCmd n) (pFirst (pCmd n) ts)
 
 def parseComToks (ts : List Tok) : Option Com :=
   match pCmd (ts.length + 1) ts with
